@@ -1791,14 +1791,22 @@ class Interp:
             call_abi = fd.get("abi")
         else:
             fv = self.eval_operand(st, fr, func)
-            if not isinstance(fv, FnPtr):
-                raise Unsupported("call through %r" % (fv,))
-            callee = self.prog.insts[fv.inst]
             fty = self.types[self.operand_ty(inst, func)]
-            if fty.fnsig:
-                call_abi = fty.fnsig.get("abi")
+            if not isinstance(fv, FnPtr) and fty.kind == "fndef":
+                # a zero-sized fn item held in a local (fn-item `Fn*` shims, e.g. an enum constructor used as a closure)
+                fd = self.prog.fndefs.get(fty.id)
+                if fd is None or fd["inst"] is None:
+                    raise Unsupported("unresolved fn item %s" % fty)
+                callee = self.prog.insts[fd["inst"]]
+                call_abi = fd.get("abi")
+            else:
+                if not isinstance(fv, FnPtr):
+                    raise Unsupported("call through %r" % (fv,))
+                callee = self.prog.insts[fv.inst]
+                if fty.fnsig:
+                    call_abi = fty.fnsig.get("abi")
         args = [self.eval_operand(st, fr, a) for a in val["args"]]
-        if "Constant" not in func and fv.closure:
+        if "Constant" not in func and isinstance(fv, FnPtr) and fv.closure:
             args = [UNIT] + args
         dest = self.eval_place(st, fr, val["destination"])
         return self.invoke(st, callee, args, dest, val["target"], val["unwind"], call_abi)
